@@ -22,7 +22,7 @@ S = 'yui_matrix::dense::snf::SnfCalc::<R>::'
 
 
 def sk(t):
-    return re.sub(r'#\d+\.\d+', '', show(t, -60))
+    return re.sub(r'#(?:i\d+:)?\d+\.\d+', '', show(t, -60))
 
 
 def run(facts, rep, mixing_rule=False):
